@@ -90,13 +90,17 @@ _built = {}
 
 def build_godriver(tags=""):
     """build the Go driver against /repo's current working tree"""
+    # hooks are always compiled in (build tag verif); they do nothing unless a check installs a callback
+    tags = ",".join([t for t in tags.split(",") if t] + ["verif"])
     key = tags
     if key in _built:
         return _built[key]
     out = os.path.join(scratch(), "godriver-" + (tags.replace(",", "_") or "default"))
     # the driver module lives in /verif; go.sum is copied from /repo on every build
     shutil.copy(os.path.join(REPO, "go.sum"), os.path.join(GODRIVER_DIR, "go.sum"))
-    cmd = ["go", "build"] + (["-tags", tags] if tags else []) + ["-o", out, "."]
+    race = "race" in tags.split(",")
+    tags = ",".join(t for t in tags.split(",") if t != "race")
+    cmd = ["go", "build"] + (["-race"] if race else []) + (["-tags", tags] if tags else []) + ["-o", out, "."]
     with Lock("gobuild"):
         rc, log = sh(cmd, cwd=GODRIVER_DIR, env=GOENV, check=False, timeout=900)
     if rc != 0:
@@ -196,15 +200,18 @@ def run_impl(exe, cases, per_case_timeout=10.0, cwd=None, env=None, extra_args=(
                 etxt = (errbuf[0] if errbuf else b"").decode("utf-8", "replace")[-1500:]
                 # attribute the crash: re-run the case alone; a goroutine left behind by an
                 # earlier (massive) case may have panicked while this one was running
-                alone = _run_alone(exe, cases[i], per_case_timeout, cwd, env, extra_args)
+                if "DATA RACE" in etxt:
+                    alone = "crash -"        # the race detector stopped the process: report it on this case
+                else:
+                    alone = _run_alone(exe, cases[i], per_case_timeout, cwd, env, extra_args)
                 if alone in ("crash -", "timeout -"):
                     results.append(alone)
                     crashes.append((i, "crash", etxt))
                 else:
                     results.append(alone)
-                    for j in range(i - 1, max(-1, i - 70), -1):
+                    for j in range(i - 1, max(-1, i - 12), -1):
                         if cases[j].startswith("m") or " massive" in cases[j]:
-                            for _ in range(3):
+                            for _ in range(2):
                                 if _run_alone(exe, cases[j], per_case_timeout, cwd, env, extra_args) == "crash -":
                                     results[j] = "crash -"
                                     crashes.append((j, "late crash", etxt))
